@@ -459,7 +459,13 @@ pub fn run_case(c: &Case, mode: Mode, rep: &mut Report) -> Vec<Finding> {
                     verdicts.push(format!("{:?}{:?}", cl.verdict, cl.named));
                     let ret = match cl.verdict {
                         Verdict::Eof => true,
-                        Verdict::WaitStream => matches!(cl.named, Some((true, _))) && cl.named_closed,
+                        // A runner retires the block if the named input has ended and cannot
+                        // satisfy the request any more (MTGraph: `wait(need)` answers "never"
+                        // only when fewer than `need` samples are left) or `eof()` says so.
+                        Verdict::WaitStream => match cl.named {
+                            Some((true, i)) if cl.named_closed => cl.need > r.in_buffered(i) || r.dut.block.eof(),
+                            _ => false,
+                        },
                         Verdict::WaitFunc => r.dut.block.eof(),
                         _ => false,
                     };
@@ -474,7 +480,7 @@ pub fn run_case(c: &Case, mode: Mode, rep: &mut Report) -> Vec<Finding> {
                     let _ = keeps_history;
                     findings.push(Finding {
                         class: "no-retirement".into(),
-                        detail: format!("all inputs ended (left in inputs: {left:?}), outputs drained: 8 calls gave {verdicts:?} - neither EOF nor a wait on an ended input; {}", describe(&r)),
+                        detail: format!("all inputs ended (left in inputs: {left:?}), outputs drained: 8 calls gave {verdicts:?} - neither EOF nor a wait on an ended input for more than it still holds; {}", describe(&r)),
                     });
                 }
             }
